@@ -391,6 +391,10 @@ def R2_single_via(ctx):
         v = nosite(deep_strip(tm.operand(qp[0].args[1], qp[0].bb)))
         has_ck = any(t[0] == "call" and t[1].endswith("contains_key") and contains(t[2][1], lambda s: s == v) or (t[0] == "call" and t[1].endswith("contains_key") and nosite(t[2][1]) == nosite(v)) for t in ctl)
         has_get = any(contains(nosite(deep_strip(d)), lambda s: s[0] == "call" and s[1].endswith("HashMap::<K, V, S, A>::get")) for d in sel)
+        if not (has_ck and has_get):
+            fm_ = _queue_filter_map_form(F, b, tm, qp[0])
+            if fm_ is not None:
+                has_ck, has_get = fm_
         ctx.check(has_ck, "queue:via-in-reverse-tree", "a via vertex is queued without checking that the reverse tree can be backtracked from it (rev tree contains the vertex): its backtrack error would abort an answerable query", qp[0].where(), detail="rev_vertices.contains_key(vertex)")
         ctx.check(has_get, "queue:parent-in-reverse-tree", "a via vertex is queued without its parent appearing in the reverse tree", qp[0].where())
     else:
@@ -466,6 +470,52 @@ def spur_instance_rule(ctx, rid):
     if len(spur) != 1:
         raise AnchorMissing("spur search in yens_algorithm::run")
     _spur_instance(ctx, F, b, tm, spur[0])
+
+
+def _queue_filter_map_form(F, b, tm, qpush):
+    """the queue is filled from `fwd_tree.iter().filter_map(|(v, branch)| { let r = rev.get(&branch.terminal_vertex)?;
+    rev.contains_key(v).then(|| (v, cost)) })`: the two membership tests decide inside the closure whether an element is
+    yielded at all.  Returns (vertex test present, parent test present) or None when this shape is not used."""
+    lp = innermost_loop(b, qpush.bb)
+    if lp is None:
+        return None
+    nx = [c for c in b.calls() if c.bb in lp[1] and c.func.get("method") == "next" and b.dominates(c.bb, qpush.bb)]
+    for c in nx:
+        src = nosite(deep_strip(tm.operand(c.args[0], c.bb)))
+        fms = [x for x in subterms(src) if x[0] == "call" and itm(x[1], "filter_map") and len(x[2]) == 2 and x[2][1][0] == "closure" and x[2][1][1] in F.bodies]
+        if len(fms) != 1:
+            continue
+        cb = F.bodies[fms[0][2][1][1]]
+        ctm = Terms(cb)
+        # the pushed vertex is the first component of what the closure yields
+        pv = clean(tm.operand(qpush.args[1], qpush.bb))
+        elem = clean(tm.call_term(c.term, c.bb))
+        if pv != ("field", elem, "0"):
+            return (False, False)
+        ck_ok = get_ok = True
+        some_rows = 0
+        for r in table(cb, max_paths=20000):
+            if r.end != "return":
+                continue
+            ret = nosite(deep_strip(r.ret))
+            if ret == ("agg", "std::option::Option", "None", ()) or (ret[0] == "call" and ret[1].endswith("::from_residual")):
+                continue
+            some_rows += 1
+            # yielded only if the vertex is in the reverse tree: `cond.then(..)` or a branch on the test
+            ck = None
+            if ret[0] == "call" and re.search(r"bool>?::then(_some)?$|<impl bool>::then(_some)?$", ret[1].split("{")[0]):
+                ck = clean(ret[2][0])
+            else:
+                for t_, l_ in r.bools:
+                    tc = clean(t_)
+                    if tc[0] == "call" and tc[1].endswith("contains_key") and cond_truth(l_):
+                        ck = tc
+            ck_ok = ck_ok and ck is not None and ck[0] == "call" and ck[1].endswith("contains_key") and clean(ck[2][1]) == ("field", ("arg", 2), "0")
+            # .. and only if its parent is: the lookup's None leaves the closure with None
+            gets = [(k, v) for k, v in r.sel.items() if contains(clean(k), lambda q: q[0] == "call" and q[1].endswith("HashMap::<K, V, S, A>::get") and contains(q, lambda z: z[0] == "field" and z[2] == "terminal_vertex"))]
+            get_ok = get_ok and any(v in ("Some", "Continue") for _, v in gets)
+        return (ck_ok and some_rows > 0, get_ok and some_rows > 0)
+    return None
 
 
 def spur_route_rule(ctx, rid):
